@@ -94,6 +94,18 @@ CHECKS = {
         design_ref="6.2",
         note=LEVEL_NOTE_COMMON + " The tree descent's float computation is not modelled (its result is taken from the compiled closure); parallel-batch mode is covered by the per-answer theorem (any generator state) and sampled on the implementation.",
     ),
+    "C19": dict(
+        technique="Coq proof (soundness of an abstract-interpretation checker over control skeletons, all fault sequences) applied to skeletons REGENERATED from the source on every run by a fail-closed ast translator; per-run theorems generated and kernel-checked; behavioural fault-injection probes validate the translator and supply failing inputs",
+        text=("Theorem C19_restores_chk_sound (coq/props/C19.v): whenever restores_chk accepts a method skeleton, for every branch resolution, "
+              "every fault sequence (each call independently raising or not, inside finally blocks too), every entry thread count, every stale "
+              "value of the shared saved attribute and every n_jobs, the thread count on exit - returned or raised - equals the count on entry. "
+              "On each run the skeleton of every method of NNDescent and PyNNDescentTransformer is regenerated from /repo's source (callees "
+              "inlined so that the shared attribute is tracked across nested calls), restores_chk is evaluated on it inside coqc, and for the "
+              "accepted ones a theorem instance is generated and checked. 85 behavioural probes (n_jobs x operations x ambient changes x six "
+              "fault injections) observe the real thread count."),
+        design_ref="6.19",
+        note=LEVEL_NOTE_COMMON + " The translator's call classification (every call may raise; attribute reads do not) is hand-written and validated by a self-test corpus and the probes.",
+    ),
 }
 
 REASON_PENDING = "check not built yet in this round (design in DESIGN.md section 6; no claim is made until the check exists)"
